@@ -164,7 +164,7 @@ fn sample_desc(rng: &mut crate::rng::Rng, c: Cons) -> (u8, char) {
 pub fn run(ctx: &Ctx, replay: Option<&J>) -> CheckResult {
     let rule = "exhaustive: 7 constellations x band 0..=255 x attribute U+0000..U+00FF (458752 descriptors) + 100000 sampled other characters: is_valid(d) <=> d in the pinned \
         RTCM/RINEX table; every recognised descriptor and every descriptor of bands 0..=9 x all Latin-1 attributes plus sampled others and the arithmetic neighbourhood of every recognised descriptor (band +-1, +-2, +-16, +128; attribute code point +-2^j and bit j flipped for j=0..20, case flipped) through a one-cell MSM1 message: recognised => \
-        exactly one signal-mask bit, at the pinned position (2..32), decoding back to d (bijection counted both ways); unrecognised => InvalidSignalId. order: all pairs and \
+        exactly one signal-mask bit, at the pinned position (2..32), decoding back to d (bijection counted both ways); unrecognised => InvalidSignalId. order: all pairs of Latin-1 attributes within bands 0, 1, 2, 5, 255, all pairs and \
         triples of recognised descriptors, all (recognised, near-miss) pairs, and seeded random triples: recognised compare by position, unrecognised after them, reflexive / \
         antisymmetric / transitive / consistent with ==, partial_cmp == Some(cmp) on recognised pairs. all cases non-trivial; distinct by construction (enumeration) or by hash (samples)"
         .to_string();
@@ -322,6 +322,40 @@ pub fn run(ctx: &Ctx, replay: Option<&J>) -> CheckResult {
                 }
                 Ok(None) => vs.push(viol(format!("c18:{}:recognised-refused", c.name()), format!("{} {}{} is in the standard table but refused", c.name(), b, a), c, &[(*b, *a)])),
                 Err((sig, msg)) => vs.push(viol(sig, msg, c, &[(*b, *a)])),
+            }
+        }
+    }
+    // ---- order on all pairs of Latin-1 attributes within one band (a few bands per constellation) ----
+    {
+        let pair_parts: Vec<(u64, Vec<Violation>)> = ALL_CONS
+            .par_iter()
+            .flat_map(|c| [0u8, 1, 2, 5, 255].into_par_iter().map(move |b| (*c, b)))
+            .map(|(c, band)| {
+                let mut n = 0u64;
+                let mut vs = Vec::new();
+                for a1 in 0..=255u32 {
+                    let x = (band, char::from_u32(a1).unwrap());
+                    for a2 in a1..=255u32 {
+                        let y = (band, char::from_u32(a2).unwrap());
+                        n += 1;
+                        if let Err((sig, msg)) = order_oracle(c, x, y, x) {
+                            if vs.is_empty() {
+                                vs.push(viol(sig, msg, c, &[x, y, x]));
+                            }
+                        }
+                    }
+                }
+                (n, vs)
+            })
+            .collect();
+        for (n, v) in pair_parts {
+            ev.evaluations += n;
+            ev.distinct_by_construction += n;
+            ev.class_n("order/all-latin1-attribute-pairs-within-a-band", n);
+            for x in v {
+                if !vs.iter().any(|y: &Violation| y.signature == x.signature) {
+                    vs.push(x);
+                }
             }
         }
     }
